@@ -110,6 +110,16 @@ pub fn run(out: &mut Out, seed: u64, tier: &str) {
                     x[0].z = x[1].z + r * (-d.cos() * u[2] + d.sin() * vp[2] / lw);
                 }
             }
+            // torsions and inversions that are EXACTLY planar (cis or trans), in coordinate planes and in tilted ones: every atom is
+            // a dyadic combination a*u + b*v of two lattice vectors, so the two plane normals come out exactly parallel
+            if *na == 4 && case % 8 == 3 {
+                let (u, v): ([f64; 3], [f64; 3]) = *rng.pick(&[([1., 0., 0.], [0., 1., 0.]), ([1., 1., 0.], [0., 0., 1.]), ([1., 0., 1.], [0., 1., 0.]), ([1., 2., 0.], [0., 0., 1.]), ([2., 1., 1.], [0., 1., -1.]), ([1., -1., 0.], [1., 1., 2.])]);
+                let q = |k: i64| k as f64 / 8.0;
+                let sgn = if rng.chance(0.5) { 1.0 } else { -1.0 };    // trans or cis
+                let ab: [(f64, f64); 4] = [(q(-4 + rng.below(3) as i64 - 1), q(7 + rng.below(3) as i64 - 1)), (0.0, 0.0), (q(11 + rng.below(3) as i64 - 1), 0.0),
+                                           (q(15 + rng.below(3) as i64 - 1), sgn * -q(7 + rng.below(3) as i64 - 1))];
+                for (p, (a, b)) in x.iter_mut().zip(ab.iter()) { p.x = a * u[0] + b * v[0]; p.y = a * u[1] + b * v[1]; p.z = a * u[2] + b * v[2]; }
+            }
             let desc = TermDesc { kind, idxs: (0..*na).collect(), params: params.clone() };
             let term = make_term(&desc);
             let e = term.energy(&x);
